@@ -1773,6 +1773,14 @@ func main() {
 	}
 	sc := func(n int) int { return int(float64(n) * a.Scale) }
 	nscene, nmal, njoin, ncont, naddmp = sc(nscene), sc(nmal), sc(njoin), sc(ncont), sc(naddmp)
+	// --focus core (used by the widened search when an obligation about the translated core items -
+	// Join's cases, Orientation's term, polygonContains' crossing test - is broken): many more join
+	// orders of valid cuts, containment tests and annotate runs
+	focus := a.Extra["focus"] == "core"
+	if focus {
+		njoin, ncont = 8*njoin, 6*ncont
+		w.Notes = append(w.Notes, "focus=core: 8x join cases (3 of 4 are shuffled / re-reversed valid cuts), 6x contains cases")
+	}
 
 	// 0. fixed corpus, every cut count
 	for _, g := range corpus() {
@@ -1897,8 +1905,16 @@ func main() {
 	// 3. join
 	for i := 0; i < njoin; i++ {
 		var segs []osmgeojson.VerifSegment
-		if i%4 == 0 {
+		if i%4 == 0 || (focus && i%4 != 1) {
 			segs = cutSoup(rng, keep[rng.Intn(len(keep))], i%8 == 0)
+			if i%8 != 0 { // another order and other directions of the same cut (un-annotated)
+				rng.Shuffle(len(segs), func(x, y int) { segs[x], segs[y] = segs[y], segs[x] })
+				for x := range segs {
+					if rng.Intn(2) == 0 {
+						segs[x].Line.Reverse()
+					}
+				}
+			}
 		} else {
 			segs = randomSoup(rng)
 		}
